@@ -244,7 +244,7 @@ def check(ctx):
         normalised = set()
         for lab, fa in info["records"]:
             if lab == "call:fix_atomic_specifiers":
-                normalised |= {v for v in fa.get("decl", []) if v.startswith("_fix_decl_name_type#")}
+                normalised |= {v for v in fa.get("p0", []) if v.startswith("_fix_decl_name_type#")}
         ncalls = sum(1 for lab, _ in info["records"] if lab == "call:_fix_decl_name_type")
         ok = len(normalised) >= ncalls
         nfix += 1
@@ -290,6 +290,16 @@ def check(ctx):
         import re as _re
         return bool(_re.fullmatch(r"(\w+) != 0 and isinstance\((\w+)\[\1 - 1\], c_ast\.PtrDecl\)", txt))
     wraps = [n for n in ast.walk(gt) if isinstance(n, ast.If) and _prev_is_ptr(n.test) and any(_wraps_self(s, "(", ")") for s in n.body)]
+    # the same test-and-wrap extracted into a helper: `x = self.H(x, modifiers, i)` with H = `if <prev is pointer>: return "(" + x + ")"; return x`
+    for hname, h in g.methods.items():
+        hb = [st for st in h.body if not (isinstance(st, ast.Expr) and isinstance(st.value, ast.Constant))]
+        if len(hb) == 2 and isinstance(hb[0], ast.If) and _prev_is_ptr(hb[0].test) and not hb[0].orelse and len(hb[0].body) == 1 and isinstance(hb[0].body[0], ast.Return) and isinstance(hb[1], ast.Return) \
+                and isinstance(hb[1].value, ast.Name) and S.unparse(hb[0].body[0].value) == f"'(' + {hb[1].value.id} + ')'":
+            pos = [a.arg for a in h.args.args].index(hb[1].value.id) - 1
+            for n in ast.walk(gt):
+                if isinstance(n, ast.Assign) and len(n.targets) == 1 and isinstance(n.targets[0], ast.Name) and isinstance(n.value, ast.Call) and isinstance(n.value.func, ast.Attribute) and n.value.func.attr == hname \
+                        and 0 <= pos < len(n.value.args) and S.unparse(n.value.args[pos]) == n.targets[0].id:
+                    wraps.append(n)
     cases = {c.cls.attr: mc for mc in ast.walk(gt) if isinstance(mc, ast.match_case) for c in ast.walk(mc.pattern) if isinstance(c, ast.MatchClass) and isinstance(c.cls, ast.Attribute)}
     in_array = any(w in list(ast.walk(cases.get("ArrayDecl", ast.Pass()))) for w in wraps)
     in_func = any(w in list(ast.walk(cases.get("FuncDecl", ast.Pass()))) for w in wraps)
